@@ -35,7 +35,7 @@ RULE = (
     "non-trivial = the source emitted >=1 element and (the reference output differs from the source's own events or a same-instant "
     "tie was resolved); distinct = (instance, timeline)"
 )
-BUDGET = {"quick": 180.0, "thorough": 2400.0}
+BUDGET = {"quick": 300.0, "thorough": 2400.0}
 
 GAPS = (0, 5, 10, 15)
 SPAN = 303  # horizon after subscription (no event of any case lies at or after it, apart from sampler ticks)
